@@ -57,6 +57,8 @@ type Solver struct {
 	cache     map[string]Result
 	Stats     SolverStats
 	defsLimit int
+	defsAtStart int
+	defsBase    int
 	dump      *os.File // optional transcript
 }
 
@@ -118,7 +120,20 @@ func (s *Solver) Close() {
 	}
 }
 
+// freshContext gives each job its own solver process (no variables or
+// definitions left over from earlier jobs).
+func (s *Solver) freshContext() {
+	if s.Stats.Defs == s.defsAtStart {
+		return
+	}
+	s.Close()
+	s.start()
+	s.defsAtStart = s.Stats.Defs
+	s.defsBase = s.Stats.Defs
+}
+
 func (s *Solver) restart() {
+	s.defsBase = s.Stats.Defs
 	s.Close()
 	s.Stats.Restarts++
 	s.start()
@@ -238,7 +253,7 @@ func (s *Solver) Check(lits []Lit, wantModel bool) (Result, Model) {
 		s.Stats.CacheHits++
 		return r, nil
 	}
-	if s.Stats.Defs > s.defsLimit*(s.Stats.Restarts+1) {
+	if s.Stats.Defs-s.defsBase > s.defsLimit {
 		s.restart()
 	}
 	start := time.Now()
